@@ -98,7 +98,7 @@ def callback_cases(ctx, records, stream, wild):
                                           'callback of %s returns %s, documented shaping gives %s'
                                           % (r['origin'], obs[0] if obs[0] == 'err' else sl.show(obs[1]),
                                              want[0] if want[0] == 'err' else sl.show(want[1])))
-                cases.append('(%s, %s, %s, %s, %s)' % (
+                cases.append('((%s, %s, %s, %s, %s) : cb_case)' % (
                     sl.rrec_lit(r), sl.B(mp), sl.B(amb), 'None' if f is None else '(Some %s)' % chain,
                     L(['(%s, %s)' % (L([sl.stree_lit(c) for c in ch]), sl.obs_lit(o)) for ch, o in calls])))
                 meta.append((r, mp, amb, calls))
@@ -108,7 +108,7 @@ def callback_cases(ctx, records, stream, wild):
                              'children': [sl.show(c) for c in calls[0][0]],
                              'observed': None if calls[0][1] is None else
                              (calls[0][1][0] if calls[0][1][0] == 'err' else sl.show(calls[0][1][1]))}})
-    bad, errs = ctx.coq_bad_indices('c03' + stream.replace('-', ''), IMPORTS, 'cb_check', cases, chunk=250)
+    bad, errs = ctx.coq_bad_indices('c03' + stream.replace('-', ''), IMPORTS, 'cb_check', cases, chunk=350)
     for e in errs:
         ctx.violation('correspondence:coq-eval', {'error': e}, False, e[:300])
     for i in bad[:3]:
@@ -207,6 +207,7 @@ def correspond(ctx):
     rng = ctx.rng
     wide = 3 if ctx.widen else 1
 
+    ctx.note('t_start=%.1f' % (__import__('time').time()-ctx.t0))
     # (r) fixed regression stream: helper rules must not be shared between `!` and plain rules (F18)
     f18_present = False
     for gtext, text in F18_WITNESSES:
@@ -222,12 +223,13 @@ def correspond(ctx):
 
     # (c) end to end -----------------------------------------------------------------------------------
     sl.LITS[:] = [c for c in sl.LITS if c != 'a'] if f18_present else sl.ALL_LITS[:]
-    ngram = ctx.scale(70, 700) * wide
+    ngram = ctx.scale(55, 700) * wide
     e2e_cases, e2e_meta = [], []
     comp_records = []
     tried = 0
     done = 0
-    while done < ngram and tried < ngram * 3:
+    lalr_ok = 0
+    while (done < ngram or lalr_ok < ngram * 0.7) and tried < ngram * 8:
         tried += 1
         G = sl.gen_grammar(rng)
         gtext = G.text
@@ -260,6 +262,7 @@ def correspond(ctx):
             any_p = next(iter(parsers.values()))
             oracle = sl.Oracle(G, ka, mp, sl.literal_names(any_p))
             lalr = parsers.get(('lalr', 'basic', None))
+            lalr_ok += (lalr is not None and (ka, mp) == (False, True))
             if lalr is not None and rng.random() < 0.5:
                 comp_records.extend(sl.rrec_of_rule(r) for r in lalr.rules[:8])
             for text in texts:
@@ -275,7 +278,7 @@ def correspond(ctx):
                         lit = sl.dtree_lit(d, cache)
                         byid = {id(r): r for r in lalr.rules}
                         lets = ''.join('let %s := %s in ' % (nm, sl.rrec_lit(sl.rrec_of_rule(byid[k]))) for k, nm in cache.items())
-                        e2e_cases.append('(%s(%s, %s, %s))' % (lets, sl.B(mp), lit, sl.stree_lit(tree)))
+                        e2e_cases.append('((%s(%s, %s, %s)) : e2e_case)' % (lets, sl.B(mp), lit, sl.stree_lit(tree)))
                         e2e_meta.append((gtext, text, ka, mp, tree))
                         ctx.count('e2e-coq-shape', key=(gtext, text, ka, mp), nontrivial=sl.stree_size(tree) >= 2)
             if len(ctx.samples) < 5 and texts:
@@ -284,7 +287,8 @@ def correspond(ctx):
                                         'tree': sl.show(sl.stree_of(parsers[('earley', 'dynamic', 'resolve')].parse(texts[0])))}})
                 except Exception:
                     pass
-    bad, errs = ctx.coq_bad_indices('c03e2e', IMPORTS, 'e2e_check', e2e_cases, chunk=60)
+    ctx.note('t_e2e_py=%.1f' % (__import__('time').time()-ctx.t0))
+    bad, errs = ctx.coq_bad_indices('c03e2e', IMPORTS, 'e2e_check', e2e_cases, chunk=300)
     for e in errs:
         ctx.violation('correspondence:coq-eval', {'error': e}, False, e[:300])
     for i in bad[:5]:
@@ -294,17 +298,19 @@ def correspond(ctx):
                        'keep_all_tokens': ka, 'maybe_placeholders': mp, 'observed': sl.show(tree)}, False,
                       'Coq shape / driver of the derivation lark followed differs from the tree lark returned')
 
+    ctx.note('t_e2e_coq=%.1f' % (__import__('time').time()-ctx.t0))
     # (a) random rule records against lark's callback objects ---------------------------------------
-    recs = [sl.random_record(rng, True) for _ in range(ctx.scale(260, 2500) * wide)]
+    recs = [sl.random_record(rng, True) for _ in range(ctx.scale(170, 2500) * wide)]
     callback_cases(ctx, recs, 'callback-random', True)
 
+    ctx.note('t_cb_random=%.1f' % (__import__('time').time()-ctx.t0))
     # (b) compiled rules of those grammars against the callback objects --------------------------------
     uniq = {}
     for r in comp_records:
         uniq[json.dumps(r, sort_keys=True)] = r
     recs = list(uniq.values())
     rng.shuffle(recs)
-    callback_cases(ctx, recs[:ctx.scale(120, 1200)], 'callback-compiled', False)
+    callback_cases(ctx, recs[:ctx.scale(100, 1200)], 'callback-compiled', False)
 
 
 def replay(ctx, case):
